@@ -1,6 +1,6 @@
 import FastgoModel.Props.C10
 import FastgoModel.Proofs.TokenCheck
-import FastgoModel.Proofs.BlockFrame
+import FastgoModel.Proofs.BlockHistory
 /-!
 # C01 — compress then decompress returns the input, for every call pattern
 
@@ -29,7 +29,8 @@ whatever bits follow it and whatever was decoded before it statistics-wise. `C01
 (= `checkEnc_gives_enc`): a call of a block encoder that passes the executable check `checkEnc` — which the `E`
 correspondence applies to EVERY block the real encoders emit (Huffman code generation, dynamic header, token / byte
 packing in Go, AVX2 or AVX-512, bit buffer; dynamic and Huffman-only compressor; every acceleration level) — satisfies
-the `enc` clause of `Sound` / `HSound` for that call. So both halves of the leaf contract are checked call by call
+the `enc` clause of `Sound` / `HSound` for that call, for ANY output `p` in front of the history suffix `h` the check was
+given (`C01_block_history_local`: the harness hands the check the last 32 KiB of the data encoded so far). So both halves of the leaf contract are checked call by call
 with proved checks; what remains assumed is only that the calls the harness did not generate behave like the ones it did.
 
 Scope of the theorems: the dynamic compressor (levels 1, 2, default; both windows — `Cfg.window` is a parameter)
@@ -84,12 +85,17 @@ theorem C01_block_frame (mode : Mode) (pos : Nat) (B : Bits) (h : Array UInt8) (
   inflateBlock_frame mode pos B h st final o r s hpf hb t st'
 
 theorem C01_checked_block_meets_contract (mode : Mode) (pos : Nat) (carry : Bits) (out : List UInt8) (carry' : Bits)
-    (final : Bool) (h : Array UInt8) (x : List UInt8) (hc : checkEnc mode pos carry out carry' final h x = true) :
-    ∃ B, IsBlock mode pos B final h x ∧
+    (final : Bool) (p h : Array UInt8) (x : List UInt8) (hc : checkEnc mode pos carry out carry' final h x = true) :
+    ∃ B, IsBlock mode pos B final (p ++ h) x ∧
       (final = false → bytesToBits out ++ carry' = carry ++ B) ∧
       (final = true → carry' = [] ∧
         bytesToBits out = carry ++ B ++ List.replicate (padLen (carry ++ B).length) false) :=
-  checkEnc_gives_enc mode pos carry out carry' final h x hc
+  checkEnc_gives_enc_suffix mode pos carry out carry' final p h x hc
+
+/-- blocks are local in the history: what precedes the part of the output a block can refer to does not matter -/
+theorem C01_block_history_local {mode : Mode} {pos : Nat} {B : Bits} {final : Bool} {h : Array UInt8} {x : List UInt8}
+    (hb : IsBlock mode pos B final h x) (p : Array UInt8) : IsBlock mode pos B final (p ++ h) x :=
+  hb.extend_history p
 
 /-- every accepted Write reports the full length on a healthy destination unless it stopped for lack of
     progress — the data the theorem speaks about is what the caller was told was accepted -/
@@ -130,6 +136,7 @@ end Fastgo.Writer
 
 #print axioms Fastgo.Writer.C01_block_frame
 #print axioms Fastgo.Writer.C01_checked_block_meets_contract
+#print axioms Fastgo.Writer.C01_block_history_local
 #print axioms Fastgo.Writer.C01_roundtrip_dyn
 #print axioms Fastgo.Writer.C01_empty
 #print axioms Fastgo.Writer.C01_roundtrip_huff
